@@ -322,11 +322,14 @@ class C01(Check):
         cases = []
         sizes = [40] if ctx.tier_counts == 'quick' else [24, 48, 96]
         for name in names:
-            units = list(G.VALID_UNITS) if ctx.tier_counts == 'thorough' else rng.sample(list(G.VALID_UNITS), 6) + ['esc-in-string']
+            # every unit family in both tiers (the quick tier used to sample 6 of them and missed the 2^(n/2)
+            # `background` pattern, which needs `dimensions` + an invalidating tail); quick: the tail ' x' that
+            # invalidates every list of values + one drawn tail, thorough: every tail
+            units = list(G.VALID_UNITS)
             for u in units:
                 for n in sizes:
-                    tail = rng.choice(G.VALID_TAILS) if ctx.tier_counts == 'quick' else None
-                    for tl in ([tail] if tail is not None else G.VALID_TAILS):
+                    tails = G.VALID_TAILS if ctx.tier_counts != 'quick' else sorted({' x', rng.choice(G.VALID_TAILS)})
+                    for tl in tails:
                         cases.append({'kind': 'validation', 'text': 'a{%s:%s%s}' % (name, G.VALID_UNITS[u](n), tl),
                                       'comments': True, 'validate': True, 'fetch': 'none'})
         self.judge(ctx, cases, limit=15.0)
